@@ -26,6 +26,40 @@ _collection_resolver = AbstractTypeResolver(
 )
 
 
+def _same_data(new, existing):
+    """Check whether ``new`` is the same data as ``existing``, including types.
+
+    This is the test used by ``_update`` to skip entries that do not need to
+    be changed. Plain ``==`` is not sufficient because it equates values of
+    different (JSON) types such as ``1``, ``1.0`` and ``True``, which would
+    make updates that only change the type of a value invisible.
+
+    Parameters
+    ----------
+    new : Any
+        The incoming data (plain Python data).
+    existing : Any
+        The value currently stored (a scalar or a :class:`SyncedCollection`).
+
+    """
+    if _sc_resolver.get_type(existing) == "SYNCEDCOLLECTION":
+        data = existing._data
+        if type(data) is dict:
+            if type(new) is not dict or len(new) != len(data):
+                return False
+            for key, value in new.items():
+                if key not in data or not _same_data(value, data[key]):
+                    return False
+            return True
+        if type(new) is not list or len(new) != len(data):
+            return False
+        for value, current in zip(new, data):
+            if not _same_data(value, current):
+                return False
+        return True
+    return type(new) is type(existing) and new == existing
+
+
 class _LoadAndSave:
     """A context manager for :class:`SyncedCollection` to wrap saving and loading.
 
